@@ -421,21 +421,12 @@ Theorem c07_select_quantities_nonneg : forall uf bare nsort dist proj rs c, Fora
 Proof. exact select_limit_nonneg. Qed.
 Print Assumptions c07_select_quantities_nonneg.
 
-(* full statement, FALSE (open finding N17: `take 4294967296` is emitted as `LIMIT 4294967296L`, a numeral no dialect has):
-     forall uf bare nsort dist proj rs c z, Forall valid rs -> select_limit uf bare nsort dist proj (map lit rs) = Ret c ->
-       k_limit c = Some (LNum z) -> lim_long z = false *)
-Theorem c07_limit_plain_refuted : exists uf bare nsort dist proj rs c z, Forall valid rs /\
-  select_limit uf bare nsort dist proj (map lit rs) = Ret c /\ k_limit c = Some (LNum z) /\ lim_long z = true.
-Proof.
-  exists false, None, O, false, [], [IRange None (Some 4294967296%Z)], (mkClauses (Some (LNum 4294967296)) None None (OKeys O)), 4294967296%Z.
-  split; [|vm_compute; auto]. constructor; [|constructor]. split; cbn; [exact I | discriminate].
-Qed.
-Print Assumptions c07_limit_plain_refuted.
-Theorem c07_limit_plain_partial : forall uf bare nsort dist proj rs c z, Forall valid rs ->
-  select_limit uf bare nsort dist proj (map lit rs) = Ret c -> k_limit c = Some (LNum z) ->
-  (lim_long z = false <-> (z < 4294967296)%Z).
-Proof. exact limit_plain_iff. Qed.
-Print Assumptions c07_limit_plain_partial.
+(* the LIMIT numeral is plain decimal digits for every value (full strength since fix 1cedbd3; was refuted by `take 4294967296`
+   -> `LIMIT 4294967296L`, finding N17; the clauses stream compares the spelling on every real call) *)
+Theorem c07_limit_plain : forall uf bare nsort dist proj takes c z,
+  select_limit uf bare nsort dist proj takes = Ret c -> k_limit c = Some (LNum z) -> lim_long z = false.
+Proof. reflexivity. Qed.
+Print Assumptions c07_limit_plain.
 
 Example c07_ex_select_clauses_mssql :
   clauses_code (select_limit true None 1 false [] [ERange (Some (BInt 2)) (Some (BInt 4)); ERange (Some (BInt 2)) None])
